@@ -63,6 +63,7 @@ def check_verify_fn(ck, F):
 def body(ck, F, cfg):
     ipp.check_create(ck, F)
     ipp.folding_step(ck, F)
+    ipp.check_create_n1(ck, F)
     A = ipp.check_vs(ck, F, "R10.3")
     for name, okk in A["guards_found"].items():
         ck.require(okk, "R10.5", f"guard:{name}", f"shape guard `{name}` -> Err(VerificationError) missing in InnerProductProof::verification_scalars", "src/inner_product_proof.rs")
